@@ -212,6 +212,91 @@ theorem delete_links_current {l : Loader} (hl : Consistent l) (fromF : Frag)
   ⟨setLinks_pointwise fromF _ ss h,
    follow_links_create hl fromF _ ss ign (fun p hp => hall p (List.mem_of_mem_eraseIdx hp)) h⟩
 
+/-! ## Laws of the writer over histories of edits
+
+`__set_links` is the only writer of a list attribute (`__set__`, `insert`, `delete` and the list branch of
+`purge_references` all end in it) and it assigns the attribute once, after every link has been created. -/
+
+/-- **A write is all-or-nothing.** `__set_links` fails exactly when `create_link` fails for some member (and
+with the error of the first such member); since `obj._element.set` follows the loop, the attribute is then
+untouched.  Conversely, when every member can be linked the write succeeds. -/
+theorem setLinks_error_iff (fromF : Frag) (ts : List (Frag × El)) :
+    (∃ e, setLinks fromF ts = .error e) ↔ ∃ p ∈ ts, ∃ e, createLink fromF p.1 p.2 = .error e := by
+  induction ts with
+  | nil => simp [setLinks]
+  | cons p ps ih =>
+    obtain ⟨toF, b⟩ := p
+    simp only [setLinks, List.mem_cons, exists_eq_or_imp]
+    cases hc : createLink fromF toF b with
+    | error e => simp
+    | ok s =>
+      cases hs : setLinks fromF ps with
+      | error e =>
+        have := ih.mp ⟨e, hs⟩
+        simp only [reduceCtorEq, exists_false, false_or]
+        exact ⟨fun _ => this, fun _ => ⟨e, rfl⟩⟩
+      | ok r =>
+        simp only [reduceCtorEq, exists_false, false_or, false_iff]
+        intro h
+        obtain ⟨e, he⟩ := ih.mpr h
+        rw [hs] at he
+        cases he
+
+/-- **The text of a member does not depend on its neighbours.** Writing a concatenation writes the
+concatenation of the two texts. -/
+theorem setLinks_append (fromF : Frag) (as bs : List (Frag × El)) (ra rb : List Str)
+    (ha : setLinks fromF as = .ok ra) (hb : setLinks fromF bs = .ok rb) :
+    setLinks fromF (as ++ bs) = .ok (ra ++ rb) := by
+  induction as generalizing ra with
+  | nil =>
+    simp only [setLinks, Except.ok.injEq] at ha
+    subst ha
+    simpa using hb
+  | cons p ps ih =>
+    obtain ⟨toF, b⟩ := p
+    simp only [List.cons_append, setLinks] at ha ⊢
+    cases hc : createLink fromF toF b with
+    | error e => rw [hc] at ha; cases ha
+    | ok s =>
+      rw [hc] at ha
+      cases hs : setLinks fromF ps with
+      | error e => rw [hs] at ha; cases ha
+      | ok r =>
+        rw [hs] at ha
+        simp only [Except.ok.injEq] at ha
+        subst ha
+        simp only [ih r hs, List.cons_append]
+
+/-- **`insert` then `delete` of the inserted member is a fresh write of the original list**: at whatever
+index (Python clamps an index beyond the end to the end) and whatever stood in the attribute before, the
+text after the two edits is what `__set_links` writes for the original members — no residue of the
+inserted member, no reordering. -/
+theorem insert_then_delete_restores (fromF : Frag) (members : List (Frag × El)) (index : Nat)
+    (value : Frag × El) :
+    attrDelete fromF (members.take index ++ value :: members.drop index) (min index members.length) =
+      setLinks fromF members := by
+  unfold attrDelete
+  congr 1
+  have hlen : (members.take index).length = min index members.length := List.length_take
+  rw [List.eraseIdx_append_of_length_le (by omega), hlen, Nat.sub_self]
+  simp
+
+/-- **`delete` then `insert` of the same member at the same place is a fresh write of the original
+list.** -/
+theorem delete_then_insert_restores (fromF : Frag) (members : List (Frag × El)) (index : Nat)
+    (h : index < members.length) :
+    attrInsert fromF (members.eraseIdx index) index members[index] = setLinks fromF members := by
+  unfold attrInsert
+  congr 1
+  induction members generalizing index with
+  | nil => cases h
+  | cons m ms ih =>
+    cases index with
+    | zero => simp
+    | succ i =>
+      have := ih i (by simpa using h)
+      simpa using this
+
 /-! ## Non-vacuity: a concrete loader with a nested, oddly named fragment and a visual file -/
 
 def mainF : Frag := ⟨["\x00".toList, "My Model.capella".toList],
@@ -253,6 +338,13 @@ example : attrInsert mainF [(fragF2, mainF.elems[0])] 1 (libF, libF.elems[0]) =
     .ok ["org.x:Root fr%C3%A4gments/100%25%20LA%231.capellafragment#a-1".toList,
          "org.x:Library ../Lib%201/sub/Lib.capella#c-1".toList] := by decide +kernel
 example : attrDelete fragF2 [(libF, libF.elems[0]), (fragF2, mainF.elems[0])] 0 = .ok ["#a-1".toList] := by
+  decide +kernel
+-- the laws over histories on this loader: a failing member (an element without any indexed id) fails the whole
+-- write; insert-then-delete and delete-then-insert give the text of a fresh write
+example : ∃ e, setLinks mainF [(fragF, fragF.elems[0]), (mainF, ⟨[], none⟩)] = .error e :=
+  ⟨.valueError, by decide +kernel⟩
+example : attrDelete mainF ([(fragF, fragF.elems[0])].take 5 ++ (libF, libF.elems[0]) :: [(fragF, fragF.elems[0])].drop 5)
+    (min 5 1) = .ok ["org.x.la:LogicalArchitecture fr%C3%A4gments/100%25%20LA%231.capellafragment#b-1".toList] := by
   decide +kernel
 example : Clean fragF.path ∧ ¬ mainF.path <+: fragF.path := by
   refine ⟨?_, by decide⟩
